@@ -396,6 +396,7 @@ pub fn pipeline_programs(seed: u64, family: &str, n: usize, emit: &mut dyn FnMut
             4 if r.chance(1, 3) => ("30000000,10,50,250,394,0".to_string(), crate::fam::idiom::shared_fields_program(&mut r)),
             2 if r.chance(1, 4) => ("30000000,10,50,250,394,0".to_string(), crate::fam::idiom::string_slot_program(&mut r)),
             1 if r.chance(1, 4) => ("30000000,10,50,250,394,0".to_string(), crate::fam::idiom::nested_top_field_program(&mut r)),
+            0 if r.chance(1, 5) => ("30000000,10,50,250,394,1".to_string(), crate::fam::idiom::bad_jump_tail_program(&mut r)),
             3 if r.chance(1, 4) => ("30000000,10,50,250,394,0".to_string(), crate::fam::idiom::odd_hash_program(&mut r)),
             6 if r.chance(1, 4) => ("30000000,10,50,250,394,0".to_string(), crate::fam::idiom::repeated_motif_program(&mut r)),
             6 if r.chance(1, 2) => ("30000000,10,50,250,394,0".to_string(), crate::fam::idiom::mixed_lookalike_program(&mut r)),
